@@ -112,6 +112,9 @@ def build():
     out.append(coq_strs("FD_EXEC_FLAGS", const_strs(module_assign(mods["fd"], "EXEC_FLAGS"), "fd EXEC_FLAGS"), "cli/fd.py EXEC_FLAGS"))
     out.append(coq_strs("FD_SHORT_NOARG", str_chars(module_assign(mods["fd"], "_SHORT_NOARG"), "fd _SHORT_NOARG"),
                         "cli/fd.py _SHORT_NOARG (one-character strings)"))
+    out.append(coq_strs("FD_PLACEHOLDERS", const_strs(module_assign(mods["fd"], "_PLACEHOLDERS"), "fd _PLACEHOLDERS"),
+                        "cli/fd.py _PLACEHOLDERS (with none of them in a word, fd appends the found path)"))
+    need(mods["fd"], "_with_path", ["{}"])
     need(mods["fd"], "classify", [";", "\\;", "fd", "; ", "ask", "delegate", "--exec-batch=", "--exec=", "-x", "-X", "xX"])
 
     # docker
